@@ -1,0 +1,21 @@
+// Copyright 2024 The Go Authors. All rights reserved.
+// Use of this source code is governed by a BSD-style
+// license that can be found in the LICENSE file.
+
+//go:build verif && (!goexperiment.jsonv2 || !go1.25)
+
+package json
+
+import "sync"
+
+// VerifPools exposes the package's pools to the deterministic simulator
+// under /verif. It exists only in builds with the "verif" tag.
+func VerifPools() map[string]*sync.Pool {
+	return map[string]*sync.Pool{"json.strings": stringsPools}
+}
+
+// VerifResetCaches forgets every cached arshaler so that "which type was
+// seen first" becomes a choice of the simulator.
+func VerifResetCaches() {
+	lookupArshalerCache.Clear()
+}
